@@ -750,6 +750,7 @@ Theorem lme_personalize_slope p obs b :
   mat_apply_eq (madd (ZtZ Z) (cov_inv p)) b (Ztr Z (residuals p o)).
 Proof.
   unfold lme_personalize. destruct (Qeq_bool (ages_std p) 0); [discriminate|].
+  destruct (remove_nans obs) as [|x o] eqn:Eo; [discriminate|].
   intros H. now apply blup2_normal_eq.
 Qed.
 
@@ -759,8 +760,9 @@ Theorem lme_personalize_intercept p obs b :
   (Qnat (length r) + m11 (cov_inv p)) * fst b == sumQ r /\ snd b = 0.
 Proof.
   unfold lme_personalize. destruct (Qeq_bool (ages_std p) 0); [discriminate|].
+  destruct (remove_nans obs) as [|x o] eqn:Eo; [discriminate|].
   unfold intercept_re.
-  destruct (Qeq_bool (Qnat (length (residuals p (remove_nans obs))) + m11 (cov_inv p)) 0) eqn:E; [discriminate|].
+  destruct (Qeq_bool (Qnat (length (residuals p (x :: o))) + m11 (cov_inv p)) 0) eqn:E; [discriminate|].
   apply Qeq_bool_neq in E. simpl. intros H. inversion H; subst; clear H. simpl. split; [|reflexivity].
   field. exact E.
 Qed.
@@ -930,4 +932,27 @@ Proof.
   - exists 1. split; [reflexivity|].
     intros [t [Hi Hm]]. destruct Hi as [Hi|[Hi|[]]]; inversion Hi; subst.
     specialize (Hm (1 # 2) 2 ltac:(right; now left)). revert Hm. unfold Qle; simpl; lia.
+Qed.
+
+(** personalisation is defined as soon as something was observed, the scale is not zero and the system is regular
+    (with a non-negative [cov_re_unscaled_inv] the random-intercept system always is) *)
+Theorem lme_personalize_defined p obs :
+  ~ ages_std p == 0 -> remove_nans obs <> [] ->
+  (~ det2 (madd (ZtZ (design p (map fst (remove_nans obs)))) (cov_inv p)) == 0 ->
+     exists b, lme_personalize true p obs = Ok b) /\
+  (0 <= m11 (cov_inv p) -> exists b, lme_personalize false p obs = Ok b).
+Proof.
+  intros Hs Hne. unfold lme_personalize.
+  destruct (Qeq_bool (ages_std p) 0) eqn:E; [apply Qeq_bool_iff in E; contradiction|].
+  destruct (remove_nans obs) as [|x o] eqn:Eo; [congruence|]. split.
+  - intros D. apply blup2_defined; [|exact D]. unfold design, residuals. now rewrite !map_length.
+  - intros Hp. unfold intercept_re.
+    destruct (Qeq_bool (Qnat (length (residuals p (x :: o))) + m11 (cov_inv p)) 0) eqn:Ez.
+    + exfalso. apply Qeq_bool_iff in Ez.
+      assert (Hn : 0 < Qnat (length (residuals p (x :: o)))) by (apply Qnat_pos; unfold residuals; simpl; lia).
+      assert (Hlt : 0 < Qnat (length (residuals p (x :: o))) + m11 (cov_inv p)).
+      { apply Qlt_le_trans with (Qnat (length (residuals p (x :: o))) + 0); [now rewrite Qplus_0_r|].
+        apply Qplus_le_compat; [apply Qle_refl|exact Hp]. }
+      rewrite Ez in Hlt. now apply Qlt_irrefl in Hlt.
+    + simpl. eexists; reflexivity.
 Qed.
